@@ -48,6 +48,8 @@ func c15leanTy(t reflect.Type) string {
 		return ".nodeI"
 	case t == reflect.TypeOf(gedcom.Tag{}):
 		return ".tag"
+	case t == reflect.TypeOf(gedcom.Date{}):
+		return ".date"
 	case t.Kind() == reflect.Ptr && t.Elem().Kind() == reflect.Struct && t.Elem().PkgPath() == c15nodeIface.PkgPath() &&
 		strings.HasSuffix(t.Elem().Name(), "Node") && t.Implements(c15nodeIface):
 		return fmt.Sprintf("(.ptr %q)", t.Elem().Name())
@@ -293,7 +295,7 @@ func init() {
 		b.WriteString("]\n\n")
 
 		// --- reflection surface
-		types := []reflect.Type{reflect.TypeOf(&gedcom.Document{}), reflect.PtrTo(reflect.TypeOf(gedcom.Tag{}))}
+		types := []reflect.Type{reflect.TypeOf(&gedcom.Document{}), reflect.PtrTo(reflect.TypeOf(gedcom.Tag{})), reflect.PtrTo(reflect.TypeOf(gedcom.Date{}))}
 		nt := c15nodeTypes()
 		var kinds []string
 		for k := range nt {
@@ -350,6 +352,50 @@ func init() {
 			fmt.Fprintf(&b, "  (%q, [%s])%s\n", c15recvName(t), strings.Join(names, ", "), sep)
 		}
 		b.WriteString("]\n\n")
+		b.WriteString("/-- receiver type ↦ (field name, FieldByName succeeds on the zero struct — false for a field promoted\n")
+		b.WriteString("    through an embedded pointer, which is nil there —, type of the field) -/\n")
+		b.WriteString("def fieldInfo : List (String × List (String × Bool × Ty)) := [\n")
+		for i, t := range types {
+			var ents []string
+			for _, f := range reflect.VisibleFields(t.Elem()) {
+				reach := func() (ok bool) {
+					defer func() {
+						if recover() != nil {
+							ok = false
+						}
+					}()
+					return reflect.New(t.Elem()).Elem().FieldByName(f.Name).IsValid()
+				}()
+				rs := "false"
+				if reach {
+					rs = "true"
+				}
+				ents = append(ents, fmt.Sprintf("(%q, %s, %s)", f.Name, rs, c15leanTy(f.Type)))
+			}
+			sep := ","
+			if i == len(types)-1 {
+				sep = ""
+			}
+			fmt.Fprintf(&b, "  (%q, [%s])%s\n", c15recvName(t), strings.Join(ents, ",\n    "), sep)
+		}
+		b.WriteString("]\n\n")
+		b.WriteString("/-- Tag.String of every registered tag -/\n")
+		b.WriteString("def tagNames : List (String × String) := [\n")
+		{
+			seenTag := map[string]bool{}
+			var ents []string
+			for _, t := range gedcom.Tags() {
+				if seenTag[t.Tag()] {
+					continue
+				}
+				seenTag[t.Tag()] = true
+				ents = append(ents, fmt.Sprintf("  (%q, %q)", t.Tag(), gedcom.TagFromString(t.Tag()).String()))
+			}
+			sort.Strings(ents)
+			b.WriteString(strings.Join(ents, ",\n"))
+		}
+		b.WriteString("]\n\n")
+		fmt.Fprintf(&b, "/-- Tag.SortValue of a tag that is not registered -/\ndef unknownTagSortValue : Nat := %d\n\n", gedcom.TagFromString("ZZUNKNOWN").SortValue())
 		var sn []string
 		for k := range namedSlices {
 			sn = append(sn, k)
